@@ -182,14 +182,13 @@ Definition run_deep (gv : bool) (n : nat) (op mid cl : bytes) : outp :=
   let s := rep n op ++ mid ++ rep n cl in
   let body :=
     match from_str gv s with
-    | Ok t => B "OK:" ++ nat_dec (string_len t) ++ colon
-              ++ bool_tok (lbeq (show t) s || lbeq (show_noparens t) s) ++ colon ++ eq_tok (eq_str t s)
+    | Ok t => B "OK:" ++ nat_dec (string_len t)
     | Err InvalidSignature => B "ERR"
     | Err OutOfFuel => B "FUEL"
     | Panic _ => B "PANIC"
     end in
-  {| o_model := B "D" ++ nat_dec (stack_used gv s) ++ B "|" ++ body;
-     o_spec := if valid_sigb gv s then B "OK:" ++ nat_dec (length (canon gv s)) ++ B ":T:T" else B "ERR";
+  {| o_model := B "D" ++ dec_of_N (stack_used gv s) ++ B "|" ++ body;
+     o_spec := if valid_sigb gv s then B "OK:" ++ nat_dec (length (canon gv s)) else B "ERR";
      o_class := if Known_deep gv s then B "deep_recursion" else class_name (classify gv s) |}.
 
 (* ---- dispatch *)
